@@ -27,7 +27,7 @@ from harness import coq, skel
 from harness.common import (VERIF, drain_failures, make_orchestrator, parse_json_violations, pool_map, rng_for, run_cli,
                             scratch_dir)
 from harness.framework import Check
-from harness.props import c12_lazy
+from harness.props import c12_lazy, c12_tspat
 
 PROP = "C12"
 FLAGS = ["q_rs_chain_start", "q_ts_arrow_node_start", "q_ts_console_chain_start", "q_fh_header_relative", "q_col_const_unclamped"]
@@ -1494,9 +1494,10 @@ def run(tier: str, seed: int, replay: str | None = None) -> int:
         "columns are compared in bytes (CPython col_offset and tree-sitter columns are UTF-8 byte offsets)",
         "which constructs a linter flags is out of scope here (C01/C02/C03/C16/C17/C19): every reported violation is judged, a missing one is not noticed",
     ]
-    res = chk.build(["theories/Props/C12.v"], ["LocGen", "LocPatGen", "LocLazyGen"], known_v=["theories/Props/C12Known.v"])
+    res = chk.build(["theories/Props/C12.v"], ["LocGen", "LocPatGen", "LocLazyGen", "LocTsPatGen"], known_v=["theories/Props/C12Known.v"])
     judge_built = all(f"theories/{sub}/{name}" in res.compiled for sub, name in JUDGE_CONE)
     pat_built = judge_built and all(f in res.compiled for f in ("theories/Gen/LocPatGen.v", "theories/Model/LocPat.v"))
+    tspat_built = judge_built and all(f"theories/{sub}/{name}" in res.compiled for sub, name in PAT_CONE + c12_tspat.TS_CONE_EXTRA)
     lazy_built = all(f"theories/{sub}/{name}" in res.compiled for sub, name in c12_lazy.LAZY_CONE)
     load_known_d(chk)
     scale = chk.budget_scale()
@@ -1752,6 +1753,29 @@ def run(tier: str, seed: int, replay: str | None = None) -> int:
                 c12_lazy.decide(chk, cases, lj, outs, slim)
             except RuntimeError as e:
                 chk.broken.append(f"Model:evaluation of the lazy-ignores scanner model failed ({str(e)[:400]})")
+    # ---- TypeScript pattern linters (string-concat-loop, cqs): every violation is (row + 1, column) of a node of the type read from the source
+    tj = []
+    try:
+        tj = c12_tspat.tspat_jobs(cases, impls, ts_tree_term)
+    except Exception as e:  # noqa: BLE001
+        chk.broken.append(f"Model:TypeScript pattern-linter jobs could not be built ({type(e).__name__}: {str(e)[:200]})")
+    if tj:
+        with scratch_dir("tv-c12-tspat-") as wd:
+            per = 20
+            shards = ["\n".join(tj[j][4] for j in range(s0, min(len(tj), s0 + per))) for s0 in range(0, len(tj), per)]
+            try:
+                tth = coq.TH
+                if not tspat_built:
+                    tth = recorded_layer_theories(wd / "recorded", PAT_CONE + c12_tspat.TS_CONE_EXTRA)
+                    if tth is None:
+                        raise RuntimeError("the TypeScript pattern-linter model does not build and no recorded generated layer is available")
+                    chk.notes.append("the TypeScript pattern-linter model was evaluated with the recorded generated layer (coq/Gen.expected/LocTsPatGen.v.txt)")
+                outs = [o for sh in eval_shards_th(wd / "shards", shards, tth, c12_tspat.TS_HEADER) for o in sh]
+                if len(outs) != len(tj):
+                    raise RuntimeError(f"expected {len(tj)} results, got {len(outs)}")
+                c12_tspat.decide(chk, cases, tj, outs, slim)
+            except RuntimeError as e:
+                chk.broken.append(f"Model:evaluation of the TypeScript pattern-linter model failed ({str(e)[:400]})")
     # ---- documented multi-line chains, SARIF / JSON views, bookkeeping
     for ci, (case, im) in enumerate(zip(cases, impls)):
         texts = tuple(sorted((d["name"], doc_text(d) if d.get("raw") is None else d["raw"]) for d in case["docs"]))
